@@ -184,6 +184,72 @@ func checkC08(c *Ctx) {
 		c.Unresolved("C08.6", "deleteOldViews", "anchor missing")
 	}
 
+	// C08.6b collected timeouts leave the bag only by view: every write of the bag is its creation, the (gated) append,
+	// or a DeleteFunc whose predicate compares t.View with the quorum's view / the current view
+	{
+		tf := p.Field("protocol/synchronizer", "timeoutCollector", "timeouts")
+		var bad []string
+		n := 0
+		for _, w := range p.fieldWrites(tf) {
+			st, ok := w.Instr.(*ssa.Store)
+			if !ok || w.Fresh {
+				continue
+			}
+			n++
+			fw := NewFlow(p, w.Fn)
+			vk := fw.K.Key(st.Val)
+			switch {
+			case strings.HasPrefix(vk, "make@"):
+			case strings.HasPrefix(vk, "builtin append("+kTCField+","):
+			case strings.HasPrefix(vk, "slices.DeleteFunc["):
+				call, _ := st.Val.(*ssa.Call)
+				okPred := false
+				if call != nil && fw.K.Key(call.Call.Args[0]) == kTCField {
+					if cl := funcOfValue(call.Call.Args[1]); cl != nil {
+						ways := trueEdges(NewFlow(p, cl))
+						if len(ways) == 1 {
+							for f := range ways[0] {
+								if (f.Op == "==" || f.Op == "<") && (strings.Contains(f.L, kTOMsg+"View") || strings.Contains(f.R, kTOMsg+"View")) {
+									okPred = true
+								}
+							}
+							for f := range ways[0] {
+								if f.Op != "after" && !(strings.Contains(f.L, kTOMsg+"View") || strings.Contains(f.R, kTOMsg+"View")) {
+									okPred = false
+								}
+							}
+						}
+					}
+				}
+				if !okPred {
+					bad = append(bad, p.InstrPos(st)+": DeleteFunc with a predicate that is not a comparison of t.View")
+				}
+			default:
+				bad = append(bad, p.InstrPos(st)+": timeouts := "+shortVal(vk))
+			}
+		}
+		c.Check(len(bad) == 0 && n >= 3, "C08.6", "timeoutCollector.timeouts: entries are removed only by view", "protocol/synchronizer/timeout_collector.go",
+			itoa(n)+" writes: creation, gated append, and DeleteFunc by t.View only", "collected timeouts can be discarded for a reason other than their view (a flood of other views' timeouts evicts a forming quorum): "+join(bad))
+		dov := p.Method("protocol/synchronizer", "timeoutCollector", "deleteOldViews")
+		if dov != nil {
+			refs := c.whoMayCall("C08.6", dov, "timeoutCollector.deleteOldViews", "(*hs/protocol/synchronizer.Synchronizer).OnRemoteTimeout")
+			okArg := len(refs) > 0
+			for _, r := range refs {
+				ci, ok := r.Instr.(ssa.CallInstruction)
+				if !ok {
+					okArg = false
+					continue
+				}
+				fr := NewFlow(p, r.In)
+				if !strings.HasPrefix(fr.K.Key(ci.Common().Args[1]), "(*hs/protocol.ViewStates).View(") {
+					okArg = false
+				}
+			}
+			c.Check(okArg, "C08.6", "deleteOldViews is given the replica's current view", p.FuncPos(dov),
+				"timeouts are purged only below state.View() as read by the handler", "deleteOldViews is called with something other than the current view: timeouts of views not yet left can be purged")
+		}
+	}
+
 	// C08.7 certificates are built from exactly the list
 	c08Builders(c)
 }
